@@ -22,7 +22,7 @@ KINDS = {
     "C06": lambda k: k.startswith(("post:", "unmodelled-call", "fixpoint-not-reached")),
     "C12": lambda k: k.startswith(("assert:overflow", "arith-no-wrap", "cast-value-preserving", "vector-invariant", "raw-", "ptr-offset", "precondition of")),
     "C18": lambda k: k.startswith(("assert:", "panic", "post:")),
-    "C11": lambda k: k.startswith(("post:", "assert:", "panic", "carry-test", "scale-consumed")),
+    "C11": lambda k: k.startswith(("post:", "assert:", "panic", "carry-test", "scale-consumed", "wrap-free")),
     "C14": lambda k: k.startswith(("pow-no-overflow",)),
     "C17": lambda k: k.startswith(("post:bits", "unmodelled-call", "fixpoint-not-reached")),
     "C19": lambda k: k.startswith(("assert:", "panic", "index-in-bounds", "range-index-in-bounds", "unmodelled-call", "fixpoint-not-reached", "post:")),
